@@ -315,17 +315,22 @@ pub fn run_engine<E: Engine>(engine: &E, property: &str, tier: Tier) -> i32 {
                         }
                         if !res.findings.is_empty() {
                             let mut col = collected.lock().unwrap();
+                            let mut seen_keys: Vec<(String, String, String)> = vec![];
+                            let size = engine.size(case);
+                            let js = serde_json::to_string(case).unwrap_or_default();
                             for f in res.findings {
                                 if f.property != property {
                                     continue;
                                 }
                                 let kid = match_known(&known_ref(known), &f);
                                 let key = (f.property.clone(), f.clause.clone(), kid.unwrap_or_default());
+                                if seen_keys.contains(&key) {
+                                    continue;
+                                }
+                                seen_keys.push(key.clone());
                                 *col.counts.entry(key.clone()).or_default() += 1;
-                                let size = engine.size(case);
-                                let js = serde_json::to_string(case).unwrap_or_default();
                                 let g = col.groups.entry(key).or_default();
-                                g.push((size, js, f, case.clone()));
+                                g.push((size, js.clone(), f, case.clone()));
                                 g.sort_by(|a, b| (a.0, &a.1).cmp(&(b.0, &b.1)));
                                 g.truncate(KEEP_PER_GROUP);
                             }
